@@ -1299,7 +1299,12 @@ def run(ctx):
         "correspondence harness (generators, derivation/witness serialisation, rows -> GreaterEq/LessEq encoding, explanation -> Farkas multipliers)",
         "Z3 (LIA/LRA) and the box -6..6 as supporting oracles where no certificate exists; kernel.theory.check_proof for proof terms",
         "exact integer division in the model in place of Python's float division (agree below 2^53); CPython hash(-1)=hash(-2) as the only bucket collision"]
+    ctx.coverage["trusted_base"] += [
+        "simplex model: variables are numbered so that numeric order = Python's string order of the names ($a$.. < x0..); sets/dicts of "
+        "simplex.py are modelled by order-independent folds (update over all rows, greatest violated basic variable)"]
     ctx.assumptions += [
+        "simplex theorems are about the model of Simplex (fixes C16-2 included) under InputOK: each constraint mentions a variable once, "
+        "problem variables numbered above the slack variables; termination of check() is not proved (fuel)",
         "omega_contr_sound / omega_sat_sound are about the model of solve_matrix with fix C16-1, for matrices whose rows have one width; "
         "the model is tied to the code by translation of the two combine functions and by differential runs",
         "the simplex algorithm is not modelled; its answers are judged per run by verified certificate checkers, Z3 and brute force",
@@ -1407,8 +1412,20 @@ MANIFEST = {
             "input row). The model is tied to prover/omega.py by regenerating combine_real_factoid/combine_dark_factoid from the source "
             "on every run and by "
             "differential runs (verdict, witness dict, derivation tree) on generated systems; besides, every answer of the real code is "
-            "judged at run time: SAT witnesses by the verified checkWitness and an independent evaluation, contradictions by the verified checkDeriv, an independent replay, brute force and Z3. The simplex algorithm (pivoting, branch and bound, strict variant) is not "
-            "modelled: its witnesses go through checkWitness(Q), its 'unsatisfiable' answers are certified by checkFarkas whenever Farkas multipliers "
+            "judged at run time: SAT witnesses by the verified checkWitness and an independent evaluation, contradictions by the verified checkDeriv, an independent replay, brute force and Z3. (c) about an executable model "
+            "of prover/simplex.py's Simplex class (add_ineq, update, pivot, pivotAndUpdate, assert_upper/lower, check with the variable choice as coded, "
+            "handle_assertion; exact rationals), tied to the code by replaying the same assertion sequences and comparing verdict, mapping and "
+            "basic set after every check(): pivot_preserves_rows / pivot_preserves_wf (a pivot keeps the solution set of the row equations and "
+            "the well-formedness of the tableau), update_preserves_rows / pivotAndUpdate_preserves_rows (mapping stays a solution of the rows), "
+            "check_sat_sound (check = SAT: mapping satisfies rows and all bounds), check_unsat_sound (check = UNSAT: rows + bounds have no "
+            "rational solution; the stuck row is the Farkas-style explanation), handle_assertion_sat_sound / handle_assertion_unsat_sound, and "
+            "end to end simplex_sat_sound / simplex_unsat_sound (Simplex(); add_ineqs(qs); handle_assertion(): no exception => mapping satisfies "
+            "every given constraint except the ignored form 0*x ~ b; UNSATException / AssertUpper/LowerException => qs has no rational "
+            "solution). All for every fuel: termination of check is NOT proved (the code repairs the last violated basic variable, not "
+            "Bland's rule); the outcome 'fuel' claims nothing. NOT modelled / not proved: branch_and_bound (its verdicts are compared with Z3 "
+            "and brute force, witnesses go through checkWitness), simplex_strict (delta-pairs; Z3 and exact witness evaluation), the "
+            "proof-producing wrappers (checked by theory.check_proof). In addition every answer of the real Simplex is judged per run: "
+            "witnesses go through checkWitness(Q), 'unsatisfiable' answers are certified by checkFarkas whenever Farkas multipliers "
             "can be read from the solver's explanation (internal fields; if not, or if they do not check, the verdict is decided by Z3 - only "
             "a wrong verdict is a violation), branch-and-bound / strict verdicts are compared with Z3 and brute force. OmegaHOL "
             "and SimplexHOLWrapper proof terms are checked by theory.check_proof (conclusion false, no gaps, every hypothesis literally one of the given constraints; "
